@@ -59,6 +59,8 @@ func main() {
 			"every order uses a fresh device id / device key / server key, so the only reason the model knows for refusing a validly signed order is the signer",
 			"peer servers named in authorized-server records point to a sink HTTP server inside the child (the server's fan-out is answered with 200 and ignored)",
 			"an empty gcaPubKey.dat placed before the first start stands for the residue of a crash during a registration that never completed; such a server counts as unregistered",
+			"a registration issued while a directory occupies the path gcaPubKey.dat (write fault injected from outside, removed right after the call) may be refused; whatever it answers, the model state, the server's key state and every later answer must agree",
+			"the all-zero key is a legitimate GCA key (one sequential history in five registers it, one concurrent batch in five has it among the candidates); nobody can sign for it, so after it is registered nothing at all is honoured",
 			"race reports are raised for the operations of this property only: registration against equipment authorization, server authorization and migration orders (plus the GET handlers used for inspection)",
 			"delay injections rely on wall-clock sleeps of 60-100 ms only to widen the window; a too short sleep loses detection, not soundness",
 		},
@@ -80,6 +82,9 @@ func main() {
 			c.Require("seq.prereg_orders_refused", 30)
 			c.Require("seq.winner_orders_accepted", 10)
 			c.Require("seq.restarts", 5)
+			c.Require("seq.winner_is_zero_key", 3)
+			c.Require("seq.failed_persist_registration_refused", 3)
+			c.Require("conc.batches_with_zero_key_candidate", 3)
 			c.Require("conc.batches", 10)
 			c.Require("conc.nontrivial_batches", 5)
 			c.Require("conc.winner_orders_accepted", 10)
@@ -146,6 +151,7 @@ type call struct {
 	Signer   [32]byte // key whose valid signature the body carries (if Signed)
 	Signed   bool     // body is well-formed and carries a valid signature of Signer over the reference signing bytes
 	ValidReg bool     // register: well-formed, signed by the temporary key over exactly the submitted key
+	Faulted  bool     // register: issued while gcaPubKey.dat cannot be written; a refusal is then legal
 	Auth     refenc.Auth
 }
 
@@ -168,6 +174,9 @@ func step(state string, c *call, out int) []string {
 			case outOK:
 				return []string{keyState(c.Key)}
 			case outFail:
+				if c.Faulted {
+					return []string{state} // the key could not be persisted: refusing is the only honest answer
+				}
 				return nil
 			default: // may or may not have been executed
 				return []string{state, keyState(c.Key)}
@@ -241,6 +250,8 @@ func partition(h []porcupine.Operation) [][]porcupine.Operation {
 		switch {
 		case c.Kind == "read":
 			core = append(core, o)
+		case c.ValidReg && out == outFail && c.Faulted:
+			// legal in every state, no effect
 		case c.ValidReg && out == outFail:
 			refused = append(refused, o)
 		case c.ValidReg && out == outUnknown:
@@ -324,6 +335,10 @@ func (g *gen) bytes(n int) []byte {
 // register builds a registration of key signed by signer. mode: valid (signature
 // as is), altered (key changed after signing), zero, random.
 func (g *gen) register(key [32]byte, signer refenc.Key, who, mode string) *call {
+	if signer.Priv == [32]byte{} && (mode == "valid" || mode == "altered" || mode == "prefix") {
+		// nobody holds a private key for this public key (the all-zero key)
+		who, mode = who+"-unsignable", "zero"
+	}
 	reg := refenc.Registration{GCAKey: key}
 	c := &call{Kind: "register", Label: who + "/" + mode, Path: "/api/v1/register-gca"}
 	switch mode {
@@ -385,6 +400,11 @@ func (g *gen) order(kind string, signer *refenc.Key, who, mode string) *call {
 	signedModes := mode == "valid" || mode == "altered"
 	if signedModes && signer == nil {
 		panic("order: signed mode without signer")
+	}
+	if signedModes && sk.Priv == [32]byte{} {
+		// nobody holds a private key for this public key (the all-zero key)
+		who, mode, signedModes = who+"-unsignable", "zero", false
+		c.Label = who + "/" + mode
 	}
 	switch kind {
 	case "auth":
@@ -910,7 +930,13 @@ func seqHistory(b run.Batch, r *ev.Result, sink uint16, idx int) {
 		cands[i] = refenc.GenKey(g.rng)
 	}
 	winner := cands[0]
-	if g.rng.Intn(12) == 0 {
+	zeroWinner := idx%5 == 1
+	failedPersist := idx%5 == 2 || idx%5 == 4
+	if zeroWinner {
+		// the all-zero key is a legitimate 32-byte GCA key; nobody can sign for it
+		winner = refenc.Key{}
+		r.Count("seq.winner_is_zero_key", 1)
+	} else if g.rng.Intn(12) == 0 {
 		winner = g.temp // the temporary key holder registers its own key: legal, that key is then the GCA
 		r.Count("seq.winner_is_temp_key", 1)
 	}
@@ -923,7 +949,11 @@ func seqHistory(b run.Batch, r *ev.Result, sink uint16, idx int) {
 		if g.rng.Intn(3) == 0 {
 			c = x.invalidRegistration(cands, nil)
 		} else {
-			c = x.foreignOrder(append(cands[:len(cands):len(cands)], winner))
+			pool := cands
+			if !zeroWinner {
+				pool = append(cands[:len(cands):len(cands)], winner)
+			}
+			c = x.foreignOrder(pool)
 			r.Count("seq.prereg_orders_refused", 1) // judged below; a 200 is a violation
 		}
 		if !x.judge(0, c) {
@@ -957,6 +987,56 @@ func seqHistory(b run.Batch, r *ev.Result, sink uint16, idx int) {
 		return
 	}
 
+	// a valid registration that fails at the write of gcaPubKey.dat must leave no authority behind
+	var regs []*call
+	if failedPersist {
+		path := filepath.Join(x.srv.Dir, "gcaPubKey.dat")
+		run.Op("%s gcaPubKey.dat becomes unwritable (a directory takes its place)", x.name)
+		os.Remove(path)
+		if err := os.Mkdir(path, 0755); err != nil {
+			r.Inconc("cannot inject the write fault: " + err.Error())
+			return
+		}
+		failed := cands[len(cands)-1]
+		fc := g.register(failed.Pub, g.temp, "temp", "valid")
+		fc.Faulted, fc.Label = true, "temp/valid-key-file-unwritable"
+		ok := x.judge(0, fc)
+		os.Remove(path)
+		if !ok {
+			return
+		}
+		if x.states[0] == "" {
+			r.Count("seq.failed_persist_registration_refused", 1)
+		} else {
+			r.Count("seq.failed_persist_registration_accepted", 1)
+		}
+		regs = append(regs, fc)
+		for round := 0; round < 2; round++ {
+			for _, kind := range orderKinds {
+				if !x.judge(0, g.order(kind, &failed, "failed-candidate", "valid")) {
+					return
+				}
+				if x.states[0] == "" {
+					r.Count("seq.prereg_orders_refused", 1)
+				}
+			}
+			x.inspect("after a registration whose key file could not be written")
+			if x.bad {
+				return
+			}
+			if round == 0 {
+				if g.rng.Intn(2) == 0 {
+					break
+				}
+				if !x.restart() {
+					return
+				}
+				r.Count("seq.restarts", 1)
+				x.inspect("after a registration whose key file could not be written, after restart")
+			}
+		}
+	}
+
 	// phase 1: the registration
 	valid := g.register(winner.Pub, g.temp, "temp", "valid")
 	if !x.judge(0, valid) {
@@ -970,7 +1050,7 @@ func seqHistory(b run.Batch, r *ev.Result, sink uint16, idx int) {
 
 	// phase 2: nothing replaces the key; only the winner's signatures count
 	losers := cands[1:]
-	regs := []*call{valid}
+	regs = append(regs, valid)
 	n2 := 10 + g.rng.Intn(14)
 	for i := 0; i < n2; i++ {
 		var c *call
@@ -988,7 +1068,9 @@ func seqHistory(b run.Batch, r *ev.Result, sink uint16, idx int) {
 			c = x.invalidRegistration(losers, &winner)
 		case 5, 6, 7:
 			c = g.order(g.kind(), &winner, "registered-gca", "valid")
-			r.Count("seq.winner_orders_accepted", 1) // judged below; a refusal is a violation
+			if c.Signed {
+				r.Count("seq.winner_orders_accepted", 1) // judged below; a refusal is a violation
+			}
 		default:
 			c = x.foreignOrder(losers)
 		}
@@ -1020,7 +1102,9 @@ func seqHistory(b run.Batch, r *ev.Result, sink uint16, idx int) {
 				return
 			}
 		}
-		r.Count("seq.winner_orders_accepted", 1)
+		if !zeroWinner {
+			r.Count("seq.winner_orders_accepted", 1)
+		}
 	}
 	x.inspect("after probes")
 	// everything again after a restart: replays of every registration seen so far
@@ -1040,7 +1124,9 @@ func seqHistory(b run.Batch, r *ev.Result, sink uint16, idx int) {
 			return
 		}
 	}
-	r.Count("seq.winner_orders_accepted", 1)
+	if !zeroWinner {
+		r.Count("seq.winner_orders_accepted", 1)
+	}
 	x.inspect("end")
 	if idx == 0 {
 		r.Sample(map[string]interface{}{"kind": "seq", "calls": len(x.hist), "history_head": x.head(8)})
@@ -1068,7 +1154,7 @@ func (x *ctx) afterwards(client int, cands []refenc.Key, prefix string) {
 	for i := range cands {
 		if keyState(cands[i].Pub) == x.states[0] {
 			winner = &cands[i]
-		} else if loser == nil {
+		} else if loser == nil && cands[i].Priv != [32]byte{} {
 			loser = &cands[i]
 		}
 	}
@@ -1186,6 +1272,11 @@ func concBatch(b run.Batch, r *ev.Result, sink uint16, idx int) {
 	cands := make([]refenc.Key, k)
 	for i := range cands {
 		cands[i] = refenc.GenKey(g.rng)
+	}
+	if idx%5 == 3 {
+		// one candidate is the all-zero key (nobody can sign orders for it)
+		cands[0] = refenc.Key{}
+		r.Count("conc.batches_with_zero_key_candidate", 1)
 	}
 	// one client per list; each client issues its calls one after the other
 	var clients [][]*call
